@@ -369,7 +369,7 @@ func (sr *SRun) exec(so SOp) (res OpResult) {
 		}
 	case o.Kind == "revert":
 		var rt *ledger.RevertedTransaction
-		log, rt, hit, err = ctrl.RevertTransaction(ctx, sparams(so, ledgercontroller.RevertTransaction{Force: o.Force, AtEffectiveDate: o.AtEff, TransactionID: uint64(o.TxID)}))
+		log, rt, hit, err = ctrl.RevertTransaction(ctx, sparams(so, ledgercontroller.RevertTransaction{Force: o.Force, AtEffectiveDate: o.AtEff, TransactionID: uint64(o.TxID), Metadata: revertMeta(o)}))
 		if err == nil {
 			res.Tx = &rt.RevertTransaction
 		}
